@@ -978,6 +978,9 @@ class Extraction:
                     self.used_contracts.add(ic.key)
                     self.order.append(("const", ins(_indent(ic.opens, "    ").rstrip("\n"))))
                 for sub in it.items:
+                    if sub.kind == "type":
+                        self.order.append(("const", "    " + src[sub.kw_start:sub.end].strip()))
+                        continue
                     self._item(rel, src, sub, it, drop)
                 self.order.append(("impl_close", "}"))
                 return
@@ -1112,6 +1115,10 @@ class Extraction:
             self.used_contracts.add(tc.key)
             out += ins(_indent(tc.opens, "    "))
         for sub in rl.parse_items(src, it.body_open + 1, it.body_close):
+            if sub.kind == "type":
+                # associated type declaration: copied as it stands
+                out += "    " + src[sub.kw_start:sub.end].strip() + "\n"
+                continue
             if sub.kind != "fn" or sub.body_open >= 0:
                 raise Undecided("%s: trait %s has an item the extraction does not handle" % (rel, it.name))
             decl = src[sub.kw_start:sub.end].rstrip()
@@ -1152,6 +1159,10 @@ class Extraction:
             text = text[:mm.start()] + text[mm.end():]
             self.counts["R6.drop_variant"] = self.counts.get("R6.drop_variant", 0) + 1
         text = re.sub(r"(?m)^\s*///[^\n]*\n", "", text)
+        # R6: variants / fields gated on a default feature are kept (the default feature set is resolved as on)
+        text, n = re.subn(r"(?m)^\s*#\[cfg\(feature = \"(?:alloc|std)\"\)\]\s*\n", "", text)
+        if n:
+            self.counts["R6.cfg_feature_on"] = self.counts.get("R6.cfg_feature_on", 0) + n
         text = re.sub(r"\bpub(\([a-z]+\))?\s+", "", text)
         return text
 
@@ -1350,7 +1361,8 @@ def _fn_mentions(text, own_type, fn_index):
             if prev2 == "self" and (i < 3 or st[i - 3].text != ".") and any(impl == own_type for (k, impl, ar) in cands):
                 ms = {k for (k, impl, ar) in cands if impl == own_type}
             out |= ms
-        elif nxt == "(" and prev != "fn":
+        elif (nxt == "(" or (nxt == ":" and i + 3 < len(st) and st[i + 2].text == ":" and st[i + 3].text == "<")) and prev != "fn":
+            # plain call, or a call with a turbofish `name::<..>(..)`
             out |= {k for (k, impl, ar) in cands if impl is None}
     return out
 
